@@ -38,6 +38,8 @@ def run(R, tier):
     for ai in range(n_alg):
         d = rng.choice((2, 3))
         spec = {'sig': [rng.choice((1, 1, -1)) for _ in range(d)]}
+        if ai % 4 >= 2:              # a null generator: dividing by it fails WHILE the code is generated (harmless-event step below)
+            spec = {'sig': [0] + [rng.choice((1, 1, -1)) for _ in range(d)]}
         probe = instr.Probe()
         use_wrapper = ai % 2 == 1
         with probe.active():
@@ -157,6 +159,23 @@ def run(R, tier):
                 compare_with_model(R, f'C10_{ai}', alg, {}, use_wrapper, top, probe, algs.describe(spec))
             else:
                 R.count('history-with-failed-generation (not model-compared)')
+            # key containers that are not tuples (a range): one generation per pattern all the same (after the model
+            # comparison: a range is a different dictionary key than the tuple with the same entries)
+            from kingdon import MultiVector
+            rk = range(1, 3)
+            for uop in ('neg', 'reverse', 'normsq', 'involute'):
+                n_before = len(probe.events)
+                for kind in ('int', 'float', 'Fraction', 'int'):
+                    try:
+                        getattr(alg, uop)(MultiVector.fromkeysvalues(alg, rk, coeffs(kind, rng, 2)))
+                    except Exception:  # noqa
+                        pass
+                gens = [e for e in probe.events[n_before:] if e[1] == uop]
+                R.count('keys=range'); R.case(('range-keys', ai, uop), True)
+                if len(gens) > 1:
+                    R.violation({'clause': 'regenerated', 'coeff': 'range-keys'},
+                                {'algebra': spec, 'op': uop, 'keys': [[1, 2]], 'coefficients': 'range keys', 'events': [(e[1], str(e[2])) for e in gens]},
+                                f'{uop} on a multivector whose keys are range(1, 3) in Algebra({algs.describe(spec)}) was generated {len(gens)} times in 4 calls')
 
 
 def replay(R, rec):
